@@ -16,7 +16,7 @@ import c04, c02
 from c06 import run_replay_resolver
 
 LOCAL_RS = 'crates/dns-resolver/src/local.rs'
-NAMES = {'a': [[0x61], [0x7a]], 'b': [[0x62], [0x7a]], 'c': [[0x63], [0x79]], 'xz': [[0x78], [0x7a]], 'xy': [[0x78], [0x79]]}
+NAMES = {'z': [[0x7a]], 'n': [[0x6e], [0x7a]], 'a': [[0x61], [0x7a]], 'b': [[0x62], [0x7a]], 'c': [[0x63], [0x79]], 'xz': [[0x78], [0x7a]], 'xy': [[0x78], [0x79]]}
 ORDER = ['a', 'b', 'c']
 QT = {1: 'A', 5: 'CNAME', 255: 'ANY', 16: 'TXT'}
 
@@ -29,7 +29,7 @@ def cname_rd(w, key): return mk_enum(w, 'RecordTypeWithData', 'CNAME', cname=dn(
 
 
 class LocalResolve(Harness):
-    names = ORDER; qtypes = (1, 5, 255, 16); with_stale = True; extra_chain = 0; stale_names = ('a', 'c'); shadow_names = ('a',)
+    names = ORDER; qtypes = (1, 5, 255, 16); with_stale = True; extra_chain = 0; with_apex_ns = False; stale_names = ('a', 'c'); shadow_names = ('a',)
 
     def plan(self, ex):
         zauth = ex.branch(ex.sym('z_authoritative', 'bool'))
@@ -42,6 +42,7 @@ class LocalResolve(Harness):
                 cfg[k]['stale'] = bool(c04.choose(ex, f'{k}_stale_cache_A', 2))   # A 10.0.0.9 in the cache
             if self.with_stale and k in self.shadow_names:
                 cfg[k]['shadow'] = bool(c04.choose(ex, f'{k}_shadow_root_A', 2)) # A 10.0.0.8 in the root zone
+        cfg['_apex_ns'] = bool(c04.choose(ex, 'z_apex_ns', 2)) if (zauth and self.with_apex_ns) else False   # z. NS n.z. at the apex of the authoritative zone
         qk = (self.names + ['xz', 'xy'])[c04.choose(ex, 'q_name', len(self.names) + 2)]
         qn = self.qtypes[c04.choose(ex, 'q_type', len(self.qtypes))]
         return zauth, cfg, qk, qn
@@ -61,6 +62,8 @@ class LocalResolve(Harness):
         def put_cache(key, rd):
             rr = mk_struct(w, 'ResourceRecord', name=dn(w, key), rtype_with_data=ex.copyval(rd), rclass=mk_enum(w, 'RecordClass', 'IN'), ttl=Int(300, 'u32'))
             ex.call_fn(w.method('SharedCache', 'insert'), [Ref(Cell(cache)), Ref(Cell(rr))])
+        if cfg.get('_apex_ns'):
+            ex.call_fn(w.method('Zone', 'insert'), [Ref(zc), Ref(Cell(dn(w, 'z'))), mk_enum(w, 'RecordTypeWithData', 'NS', nsdname=dn(w, 'n')), Int(300, 'u32')])
         for k in self.names:
             c = cfg[k]
             inz = zauth and k in ('a', 'b')
@@ -138,6 +141,7 @@ class LocalResolve(Harness):
 
     def describe(self, zauth, cfg, qk, qn, res):
         d = {'z. authoritative': zauth, 'question': qk, 'qtype': QT[qn], 'result': res['kind'], 'records': [(o, t, tg) for o, t, _, tg in res['rrs']]}
+        d['z. NS at apex'] = cfg.get('_apex_ns', False)
         for k in self.names:
             c = cfg[k]
             d[k] = ('none' if c['content'] == 0 else 'A' if c['content'] == 1 else 'CNAME->' + self.names[c['content'] - 2]) + ('@cache' if c['loc'] else '@zone') + (' +staleA@cache' if c['stale'] else '') + (' +shadowA@root' if c['shadow'] else '')
@@ -166,6 +170,7 @@ class LocalResolve(Harness):
                 else: L.append('cache.insert(&ResourceRecord { name: %s, rtype_with_data: %s, rclass: RecordClass::IN, ttl: 300 });' % (nm(k), rd))
             if c['stale']: L.append('cache.insert(&ResourceRecord { name: %s, rtype_with_data: %s, rclass: RecordClass::IN, ttl: 300 });' % (nm(k), rdtxt('A', k, 9)))
             if c['shadow']: L.append('root.insert(&%s, %s, 300);' % (nm(k), rdtxt('A', k, 8)))
+        if cfg.get('_apex_ns'): L.append('z.insert(&domain("z."), RecordTypeWithData::NS { nsdname: domain("n.z.") }, 300);')
         L.append('zones.insert(root);')
         if zauth: L.append('zones.insert(z);')
         L.append('let question = Question { name: %s, qtype: QueryType::from(%du16), qclass: QueryClass::Record(RecordClass::IN) };' % (nm(qk), qn))
